@@ -222,7 +222,12 @@ class C14(CheckBase):
                     if total_after != want_total:
                         raise Violation("C14|reinit|object-files-left-in-directory", {"before": before_dirs, "after": after, "model_total": want_total})
             else:
-                ctx.count("reinit_refused_permitted" if allowed else "reinit_refused")
+                if allowed:
+                    # correct SO PIN and no session of THIS token open: the only things that may stand in the way are those two (in particular nothing
+                    # that happened on another token may - isolation)
+                    raise Violation("C14|reinit|refused-with-correct-so-pin-and-no-open-session|%s" % C.CKR_NAMES.get(r["rv"], hex(r["rv"])),
+                                    {"token": t, "sessions_held_on_other_tokens": {x: m.tok[x].held for x in m.tok if x != t and m.tok[x].exists}})
+                ctx.count("reinit_refused")
         elif k == "initpin":
             s = self.with_session(ctx, m, t, "so")
             r = p.InitPIN(s, USER[t][a[2]])
@@ -308,8 +313,29 @@ class C14(CheckBase):
         self.check_all(ctx, m, a, t)
         return m
 
+    def probe(self, ctx, m):
+        """look-ahead on EVERY transition's target (before states are merged): a token with no session open must accept a re-initialisation with its SO PIN
+        right now - whatever the history (sessions of this or of other tokens opened and closed in any order) left behind in the library"""
+        p, sh = ctx.p, ctx.sh
+        for t in ("A", "B", "C"):
+            tk = m.tok[t]
+            if not tk.exists or tk.held != 0 or (t not in self.tokens and t != "C"):
+                continue
+            d0 = sh.depth
+            sh.snap()
+            try:
+                r = p.InitToken(m.slot[t], SO[t][tk.so], t)
+                ctx.count("lookahead_reinit")
+                if r["rv"] != 0:
+                    raise Violation("C14|reinit|refused-with-correct-so-pin-and-no-open-session|%s" % C.CKR_NAMES.get(r["rv"], hex(r["rv"])),
+                                    {"token": t, "lookahead": True, "sessions_held_on_other_tokens": {x: m.tok[x].held for x in m.tok if x != t and m.tok[x].exists}})
+            finally:
+                sh.unwind(d0)
+
     def key(self, ctx, m):
-        return tuple((n, x.exists, x.so, x.user, tuple(sorted(p for p, d in x.objs.values())), x.held, x.restart_slot is not None) for n, x in sorted(m.tok.items()))
+        # the ORDER in which the held sessions were opened is part of the state: the library keeps all sessions of all tokens in one table, and what
+        # happens to one token's sessions must not depend on where another token's sessions sit in it (merging both orders would explore only one)
+        return tuple((n, x.exists, x.so, x.user, tuple(sorted(p for p, d in x.objs.values())), x.held, x.restart_slot is not None) for n, x in sorted(m.tok.items())) + (tuple(t for _h, t in m.held),)
 
     def died_sig(self, action, d):
         return "C14|%s|%r" % (action[0] if action else None, d.info)
